@@ -247,7 +247,20 @@ func checkC11(c *Ctx) {
 					continue
 				}
 				pl := ss.Addr.Strip().Args[0].Strip()
-				whole := pl.Kind == "index" && fullRange(pl.Args[1], func(x *Sym) bool { return x.Strip().Kind == "field" && x.Strip().Name == "Players" })
+				// … of the very state the handler was given (the one whose players were granted the allowance),
+				// not of the state returned by the group step (which the next request handler is already arming)
+				ofHandlerState := func(x *Sym) bool {
+					x = x.Strip()
+					if !(x.Kind == "field" && x.Name == "Players") {
+						return false
+					}
+					root := x.Args[0].Strip()
+					for root.Kind == "free" && len(root.Args) == 1 {
+						root = root.Args[0].Strip()
+					}
+					return len(f.Params) == 2 && symIsParam(root, f.Params[1])
+				}
+				whole := pl.Kind == "index" && ofHandlerState(pl.Args[0]) && fullRange(pl.Args[1], ofHandlerState)
 				v := ss.Val.Strip()
 				filters := v.Contains(func(x *Sym) bool { return x.IsCall("funk.Filter") })
 				keepsOthers := false
